@@ -337,6 +337,20 @@ func (s *Sim) PendingEvents(kindPrefix string) int {
 	return n
 }
 
+// EventTimes lists the times of the pending events of one kind, sorted.
+//
+//go:norace
+func (s *Sim) EventTimes(kindPrefix string) []time.Duration {
+	var out []time.Duration
+	for _, e := range s.events {
+		if strings.HasPrefix(e.Kind, kindPrefix) {
+			out = append(out, e.at)
+		}
+	}
+	sort.Slice(out, func(i, j int) bool { return out[i] < out[j] })
+	return out
+}
+
 // NextEventAt reports the time of the earliest pending event.
 //
 //go:norace
